@@ -220,7 +220,12 @@ impl World {
             self.bump("updates_touching_8_objects");
         }
         if self.is("C04") {
-            let back = match read_doc(&self.reps[i].m)? {
+            // a read that aborts right after a successful update does not return the submitted document either
+            let back = match read_doc(&self.reps[i].m) {
+                Err(Fail::Panic { op, msg }) => return viol("C04", format!("{} aborts right after a successful update instead of returning the submitted document: {} (submitted {})", op, msg, doc)),
+                x => x?,
+            };
+            let back = match back {
                 Ok(b) => b,
                 Err(e) => return viol("C04", format!("read after update failed: {} (submitted {})", e, doc)),
             };
